@@ -293,6 +293,40 @@ def _sum_like(name):
     return f
 
 
+def _max_stub(a, axis=None, out=None, **kw):
+    """max over symbolic magnitudes -> an arbitrary positive factor 10**E (E a fresh exponent
+    symbol).  Over-approximation used for norm-stripping code: an identity that holds for every
+    positive factor holds for the max-abs one."""
+    if axis is not None or out is not None:
+        raise P.Unsupported("np.max(axis=...) on symbolic input")
+    vals = [P.lift(v) for v in np.asarray(a).reshape(-1)]
+    if all(not isinstance(v, P.LazyAbs) and v.constval() is not None for v in vals):
+        cs = [v.constval() for v in vals]
+        return P.Poly.const(max(cs))
+    if len(vals) == 1 and not isinstance(vals[0], P.LazyAbs):
+        return vals[0]
+    k = _use("max(abs(.)) -> positive factor")
+    E = P.real(f"E{k}", origin="log10 of a stripped positive factor")
+    return P.exp10(E)
+
+
+def _wrap_reduce(real_fn, stub):
+    @functools.wraps(real_fn)
+    def f(a, *args, **kw):
+        if _is_sym(a) and a.size and any(isinstance(v, P.Poly) for v in a.reshape(-1)):
+            return stub(a, *args, **kw)
+        return real_fn(a, *args, **kw)
+
+    f.__qv_real__ = real_fn
+    return f
+
+
+def _realify_scalar(x, imag_tol=1e-12):
+    if isinstance(x, P.Poly):
+        return x
+    return _REAL["realify_scalar"](x, imag_tol)
+
+
 _REAL = {}
 _INSTALLED = [False]
 
@@ -323,3 +357,10 @@ def install():
     scla.inv = _wrap(scla.inv, inv_stub)
     np.isnan = _isnan
     np.isfinite = _isfinite
+    np.max = _wrap_reduce(np.max, _max_stub)
+    np.amax = np.max
+    import quimb.core as _qc
+    import quimb.tensor.tensor_core as _tc
+    _REAL["realify_scalar"] = _qc.realify_scalar
+    _qc.realify_scalar = _realify_scalar
+    _tc.realify_scalar = _realify_scalar
